@@ -194,6 +194,7 @@ type c10Case struct {
 	UnknownCall bool
 	UnknownPush bool
 	Requests    []string // extra requested names (random strings)
+	Early       bool     // the session is established before the unknown-handlers are set and the routes registered
 }
 
 func genC10(t *rapid.T) c10Case {
@@ -213,6 +214,7 @@ func genC10(t *rapid.T) c10Case {
 	c.UnknownCall = rapid.Bool().Draw(t, "unknownCall")
 	c.UnknownPush = rapid.Bool().Draw(t, "unknownPush")
 	c.Requests = rapid.SliceOfN(rapid.StringMatching(`[/.]?[A-Za-z_]{0,6}([/._][a-z_]{1,5}){0,2}`), 0, 4).Draw(t, "requests")
+	c.Early = rapid.Bool().Draw(t, "early")
 	return c
 }
 
@@ -279,6 +281,14 @@ func runC10(c c10Case) []string {
 		prefixes[i] = m(prefixes[g.Parent], g.Prefix)
 	}
 	callNS, pushNS := map[string]string{}, map[string]string{} // name -> handler identity
+	var l *vt.Link
+	if c.Early {
+		// routes and unknown-handlers configured after a session exists apply to that session too
+		l = w.Connect(cli, srv, vt.StreamProtos()[0], nil)
+		if l.A == nil || l.B == nil {
+			return []string{"connect failed"}
+		}
+	}
 	if c.UnknownCall {
 		srv.SetUnknownCall(func(ctx erpc.UnknownCallCtx) (interface{}, *erpc.Status) {
 			hit("<unknown-call>")
@@ -354,9 +364,11 @@ func runC10(c c10Case) []string {
 	if len(fails) > 0 {
 		return fails
 	}
-	l := w.Connect(cli, srv, vt.StreamProtos()[0], nil)
-	if l.A == nil || l.B == nil {
-		return []string{"connect failed"}
+	if l == nil {
+		l = w.Connect(cli, srv, vt.StreamProtos()[0], nil)
+		if l.A == nil || l.B == nil {
+			return []string{"connect failed"}
+		}
 	}
 	expected := map[string]int{} // cumulative expected handler runs
 	sameHits := func() string {
@@ -474,7 +486,7 @@ func runC10(c c10Case) []string {
 
 func (c c10Case) nontrivial() bool { return len(c.Groups) > 1 || len(c.Regs) > 1 }
 
-const ruleC10 = "router program = mapper (HTTP/RPC) x a tree of 0-4 SubRoute prefixes (incl. empty, separators, double underscores) x 1-8 registrations drawn from a library of 9 controller structs and 11 handler functions whose identifiers cover the documented shapes (AaBb, ABcXYz, Aa__Bb, Aa_Bb, ABC__XYZ, ABC_XYZ, leading/trailing underscores, deliberately colliding pairs) x unknown-call/unknown-push handlers set or not; then every returned name, the same name in the other namespace, 8 near-misses per name and random strings are requested; oracle: names = mapper prediction and pairwise distinct, predicted collisions must be reported, each request runs exactly the handler owning the name (or the unknown handler / 404) and no other; non-trivial = >=2 registrations or nested groups; distinct by program"
+const ruleC10 = "router program = mapper (HTTP/RPC) x a tree of 0-4 SubRoute prefixes (incl. empty, separators, double underscores) x 1-8 registrations drawn from a library of 9 controller structs and 11 handler functions whose identifiers cover the documented shapes (AaBb, ABcXYz, Aa__Bb, Aa_Bb, ABC__XYZ, ABC_XYZ, leading/trailing underscores, deliberately colliding pairs) x unknown-call/unknown-push handlers set or not x the requesting session established before or after all of that; then every returned name, the same name in the other namespace, 8 near-misses per name and random strings are requested; oracle: names = mapper prediction and pairwise distinct, predicted collisions must be reported, each request runs exactly the handler owning the name (or the unknown handler / 404) and no other; non-trivial = >=2 registrations or nested groups; distinct by program"
 
 func TestC10Routes(t *testing.T) {
 	rec := vt.NewRec(t, "C10", "routes", ruleC10)
